@@ -341,7 +341,146 @@ fn zero_sized_case(e: &mut Ent, ctx: &mut Ctx) -> Outcome {
     }
 }
 
+/// A native type reading a message that carries more than it asks for: surplus
+/// arguments (skipped by `done`) or, for tuples and structs, surplus record fields.
+/// The surplus values are skipped, so the skipping cost is at least their number;
+/// the decoder entry point (IDLDeserialize, decode_args_with_config_debug,
+/// Decode!(@Debug ..)) is a generated choice and all must report the same cost.
+fn native_surplus_case(e: &mut Ent, ctx: &mut Ctx) -> Outcome {
+    use crate::gen::types::{gen_ty, Scope};
+    use crate::gen::values::ValGen;
+    use crate::refmodel::rtype::{Builder, Lab, Ty};
+    use crate::refmodel::rwire::{encode_message, Layout};
+    let reg = registry();
+    let j = e.below(reg.len());
+    let ops = reg[j].as_ref();
+    let (env, ty, _, _) = match crate::checks::c08::corpus_ty(ops) {
+        Ok(x) => x,
+        Err(_) => return Outcome::Skip("type-export-fails"),
+    };
+    let cfg = TypeCfg { refs: false, empty: false, ..TypeCfg::default() };
+    let sc = Scope::empty();
+    let k = e.range(1, 3);
+    let extras: Vec<Ty> = (0..k).map(|_| gen_ty(e, &sc, 2, &cfg)).collect();
+    // surplus record fields when the type is a record, else surplus arguments
+    let mut resolved = &ty;
+    for _ in 0..8 {
+        if let Ty::Var(n) = resolved {
+            match env.get(n) {
+                Some(b) => resolved = b,
+                None => break,
+            }
+        }
+    }
+    let as_fields = matches!(resolved, Ty::Record(_)) && e.bool();
+    let (wire_tys, surplus_label): (Vec<Ty>, &'static str) = if as_fields {
+        let mut fs = match resolved {
+            Ty::Record(fs) => fs.clone(),
+            _ => unreachable!(),
+        };
+        let tuple = fs.iter().enumerate().all(|(i, f)| f.0.id() == i as u32);
+        let mut next = fs.iter().map(|f| f.0.id()).max().map(|m| m as u64 + 1).unwrap_or(0);
+        for x in &extras {
+            let id = if tuple { next } else { next + e.below(1000) as u64 };
+            if id > u32::MAX as u64 {
+                break;
+            }
+            fs.push((Lab::Id(id as u32), x.clone()));
+            next = id + 1;
+        }
+        fs.sort_by_key(|f| f.0.id());
+        (vec![Ty::Record(fs)], "surplus-record-fields")
+    } else {
+        let mut v = vec![ty.clone()];
+        v.extend(extras.iter().cloned());
+        (v, "surplus-arguments")
+    };
+    let mut b = Builder::new(&env);
+    let mut roots = vec![];
+    for t in &wire_tys {
+        match b.ty(t) {
+            Ok(r) => roots.push(r),
+            Err(_) => return Outcome::Skip("wire-type-ill-formed"),
+        }
+    }
+    let g = b.graph;
+    let vg = ValGen::new(&g);
+    let mut vals = vec![];
+    for r in &roots {
+        match vg.gen(e, *r, 3) {
+            Some(v) => vals.push(v),
+            None => return Outcome::Skip("uninhabited-wire-type"),
+        }
+    }
+    let bytes = encode_message(&g, &roots, &vals, &Layout::default());
+    let d = match decode_message(&bytes) {
+        Ok(d) => d,
+        Err(_) => return Outcome::Skip("not-a-valid-message"),
+    };
+    let table_len = d.header.table.len();
+    let wire_count: u64 = d.values.iter().map(count_values).sum();
+    // the surplus part, as wire values
+    let skipped: u64 = if as_fields {
+        let own: Vec<u32> = match resolved {
+            Ty::Record(fs) => fs.iter().map(|f| f.0.id()).collect(),
+            _ => vec![],
+        };
+        match &d.values[0] {
+            RVal::Record(fs) => fs.iter().filter(|(id, _)| !own.contains(id)).map(|(_, v)| count_values(v)).sum(),
+            _ => 0,
+        }
+    } else {
+        d.values.iter().skip(1).map(count_values).sum()
+    };
+    let mw: u64 = d.values.iter().zip(&d.types.args).map(|(v, t)| model(&d.types.graph, *t, v, table_len)).sum();
+    let header_cost = 4 * d.header.value_start as u64;
+    let upper = 16 * (header_cost + 50 * (2 * mw + 64)) + 256;
+    let api = *e.pick(&[Api::Builder, Api::Args, Api::Macros]);
+    ctx.class("native");
+    ctx.class(surplus_label);
+    ctx.class(match api {
+        Api::Builder => "entry-IDLDeserialize",
+        Api::Args => "entry-decode_args_with_config_debug",
+        Api::Macros => "entry-Decode!(@Debug)",
+    });
+    let bytes2 = bytes.clone();
+    let dec = Decoder {
+        name: format!("{:?} at {}", api, ops.name()),
+        run: Box::new(move |cfg| {
+            let unmetered = cfg.decoding_quota.is_none() && cfg.skipping_quota.is_none();
+            ops.decode(&bytes2, api, if unmetered { None } else { Some(cfg) })
+                .map(|r| r.map(|dn| (vec![dn.canon], dn.cost.unwrap_or((None, None)))))
+        }),
+    };
+    let describe = || {
+        format!(
+            "{surplus_label}: wire ({}) values ({}) read at {}
+bytes {}",
+            wire_tys.iter().map(rtype::emit_ty).collect::<Vec<_>>().join(", "),
+            vals.iter().map(crate::refmodel::rval::show).collect::<Vec<_>>().join(", "),
+            ops.name(),
+            hex::encode(&bytes)
+        )
+    };
+    match judge(&dec, e, wire_count, skipped, upper, &describe, ctx) {
+        Ok(ok) => {
+            if ok {
+                let mut k = bytes.clone();
+                k.extend_from_slice(ops.name().as_bytes());
+                ctx.nontrivial(digest_of(&k));
+            }
+            ctx.class(if ok { "decodes" } else { "rejected-unmetered" });
+            ctx.sample(|| describe());
+            Outcome::Pass
+        }
+        Err(f) => Outcome::Fail(f),
+    }
+}
+
 fn native_case(e: &mut Ent, ctx: &mut Ctx) -> Outcome {
+    if e.ratio(1, 3) {
+        return native_surplus_case(e, ctx);
+    }
     let reg = registry();
     let j = e.below(reg.len());
     // message: own type, or another corpus type (mostly fails; under Option it back-tracks)
@@ -370,12 +509,13 @@ fn native_case(e: &mut Ent, ctx: &mut Ctx) -> Outcome {
         }
     }
     let bytes = enc.bytes.clone();
+    let api = *e.pick(&[Api::Builder, Api::Args, Api::Macros]);
     let dec = Decoder {
-        name: format!("IDLDeserialize::get_value::<{}> + done", ops.name()),
+        name: format!("{:?} (IDLDeserialize / decode_args_with_config_debug / Decode!(@Debug)) at {}", api, ops.name()),
         run: Box::new(move |cfg| {
             let cfg2 = cfg.clone();
             let unmetered = cfg2.decoding_quota.is_none() && cfg2.skipping_quota.is_none();
-            ops.decode(&bytes, Api::Builder, if unmetered { None } else { Some(cfg) })
+            ops.decode(&bytes, api, if unmetered { None } else { Some(cfg) })
                 .map(|r| r.map(|dn| (vec![dn.canon], dn.cost.unwrap_or((None, None)))))
         }),
     };
